@@ -124,6 +124,7 @@ type exchange struct {
 	header    http.Header
 	bodyLen   int
 	chunked   bool
+	unframed  bool // with chunked: no declared length and no chunked encoding either
 	reader    *faultyReader
 	cancelled bool
 	scripts   []attemptScript
@@ -252,7 +253,11 @@ func (ex *exchange) request() *http.Request {
 	req := &http.Request{Method: ex.method, URL: u, Proto: "HTTP/1.1", ProtoMajor: 1, ProtoMinor: 1, Header: ex.header.Clone(), Host: u.Host,
 		RemoteAddr: "10.0.0.1:1234", RequestURI: u.RequestURI()}
 	req.Body = ex.reader
-	if ex.chunked {
+	if ex.chunked && ex.unframed {
+		// a body that is streamed without a declared length and without chunked encoding (HTTP/2, or a request
+		// handed on in-process by a middleware that replaced the body)
+		req.ContentLength = -1
+	} else if ex.chunked {
 		req.ContentLength = -1
 		req.TransferEncoding = []string{"chunked"}
 	} else {
